@@ -809,9 +809,11 @@ class AnimalSpecies:
                 # If feed is also not enough, feed as much as possible
                 feed_input.kcals = 0
                 NE_provided = NE_from_grass + NE_from_feed
+                NE_total_required = self.NE_balance.kcals
                 self.NE_balance.kcals -= NE_provided
+                # animals fed = herd scaled by the fraction of the requirement delivered
                 self.population_fed = round(
-                    (NE_provided / self.NE_balance.kcals) * self.current_population
+                    (NE_provided / NE_total_required) * self.current_population
                 )
 
         return grass_input, feed_input
